@@ -154,4 +154,22 @@ CHECKS = {
         "required_probes": ["invalid_range", "all_ranges_checked"],
         "assumptions": COMMON_ASSUMPTIONS + ["the GroupMetadataList/GroupMessageList RPC wrappers are not driven; they pass since/until/reverse through unchanged"],
     },
+    "C03": {
+        "pkg": ".",
+        "test": "TestVerifC03",
+        "level": "fault_enumeration",
+        "proc_timeout": "60m",
+        "quick": {"procs": 32, "checks_per_proc": 60},
+        "thorough": {"procs": 64, "checks_per_proc": 600},
+        "rule": "one case = one group session (account group with a Byzantine third device, or multi-member group with a Byzantine "
+                "member that may hold the group private key) in which (1) EVERY event type of the protocol (21) x EVERY forgery of the "
+                "catalogue (other-device / group-key / member-key signature, signer swapped after signing, payload bit flip, signature "
+                "bit flip, missing signature, unknown type number, wrong group secret, member-device event with one of its two "
+                "signatures invalid) is sealed and offered to openGroupEnvelope, and (2) 1-4 rounds of seeded forged batches and "
+                "valid control events are appended to the Byzantine member's real log and replicated to an honest replica under "
+                "simulator-chosen deliveries. non-trivial = at least one simulator-chosen delivery; distinct = distinct hash of the "
+                "trace. faults_fired counts forged envelopes per forgery kind.",
+        "required_probes": ["valid_envelope_accepted", "forged_entries_replicated", "valid_entries_emitted"],
+        "assumptions": COMMON_ASSUMPTIONS,
+    },
 }
